@@ -705,3 +705,13 @@ Example coll_clone_leaf_kept :
   let '(h2, _, _, _) := coll_transform g f h1 buf1 (mkSlice 2 0 2 2) in
   read h1 colKey1 = [97; 98] /\ read h2 colKey1 = [97; 98].
 Proof. vm_compute. split; reflexivity. Qed.
+
+(* ================================================================== the collation codec's results *)
+(* A collation tree keeps BOTH results of CollationOrderKey.Transform in the leaf (original bytes, sort key).  On the
+   REGENERATED table: both returned expressions are copies — slices that share no memory with the caller's key or with
+   the collator's scratch buffer.  An edit of keys.go that hands over the argument itself, or the buffer's slice (for
+   every key, for []byte keys only, for long sort keys only, ...), changes a classification to "other" and this no
+   longer proves. *)
+Theorem collation_transform_copies :
+  map snd SrcFacts.collation_transform_results = ["copy"; "copy"]%string.
+Proof. vm_compute. reflexivity. Qed.
